@@ -334,4 +334,47 @@ theorem ip_opts_reparse (os : List IpOpt) (hn : ∀ p ∈ os, OptNormal p) (tail
   rw [this]
   simp
 
+/-! ### known finding KF-C04-Ip-4: `eol()` on an aligned option list -/
+
+/-- full statement: the re-parse of what an object wrote has a header of the same size, so that serializing it again gives
+    a packet of the same length (the byte-for-byte clause of C03/C04) — for every object that fits `PDUOption` -/
+def ip_reparse_same_size_all : Prop :=
+  ∀ (cx : Ctx) (o : Ip4), o.Inv → o.Fits → ∀ region : Bytes, o.hdr ≤ region.length → region.length < 65536 →
+    ∃ out o' i, o.write cx region = .ok out ∧ Ip4.parse out = .ok (o', i) ∧ o'.hdr = o.hdr
+
+/-- witness: `IP(dst, src).eol()` in front of two payload bytes: a 24-byte header (END + 3 bytes of padding) that re-parses
+    to an IP without options, 20 bytes (replayed on the real code: `new / push IP … / set 0 eol / push RawPDU 0102 / show`) -/
+theorem ip_reparse_same_size_fails : ¬ ip_reparse_same_size_all := by
+  intro h
+  have hinv : ({ Ip4.create [10, 9, 8, 7] [10, 1, 2, 3] with opts := [⟨0, 0, []⟩] } : Ip4).Inv := by
+    refine ⟨by simp [Ip4.create], by simp [Ip4.create], by simp [Ip4.create], by simp [Ip4.create], by simp [Ip4.create],
+      by simp [Ip4.create], by simp [Ip4.create], by simp [Ip4.create], by simp [Ip4.create], rfl, rfl, ?_⟩
+    intro p hp
+    simp only [List.mem_cons, List.mem_nil_iff, or_false] at hp
+    subst hp
+    exact ⟨by decide, by decide, by decide⟩
+  rcases h ⟨[], []⟩ _ hinv (by show Ip4.hdr _ ≤ 60; decide) (List.replicate 24 0 ++ [1, 2]) (by decide) (by decide) with
+    ⟨out, o', i, hw, hp, hh⟩
+  have e : ({ Ip4.create [10, 9, 8, 7] [10, 1, 2, 3] with opts := [⟨0, 0, []⟩] } : Ip4).write ⟨[], []⟩ (List.replicate 24 0 ++ [1, 2]) =
+      .ok [0x46, 0, 0, 26, 0, 1, 0, 0, 128, 0, 0x1b, 0xd0, 10, 1, 2, 3, 10, 9, 8, 7, 0, 0, 0, 0, 1, 2] := by rfl
+  rw [e] at hw
+  injection hw with hw
+  subst hw
+  have e2 : Ip4.parse [0x46, 0, 0, 26, 0, 1, 0, 0, 128, 0, 0x1b, 0xd0, 10, 1, 2, 3, 10, 9, 8, 7, 0, 0, 0, 0, 1, 2] =
+      .ok (⟨4, 6, 0, 26, 1, 0, 128, 0, 0x1bd0, [10, 1, 2, 3], [10, 9, 8, 7], []⟩, .raw [1, 2]) := by rfl
+  rw [e2] at hp
+  injection hp with hp
+  injection hp with ho _
+  subst ho
+  revert hh
+  decide
+
+/-- proved part: for wire-normal options (no END among them — what parsing produces) the re-parsed object has the same
+    options, hence the same header size -/
+theorem ip_reparse_same_size_partial (cx : Ctx) (o : Ip4) (h : o.Inv) (hn : o.Normal) (hf : o.Fits) (region : Bytes)
+    (hr : o.hdr ≤ region.length) (h16 : region.length < 65536) :
+    ∃ out o' i, o.write cx region = .ok out ∧ Ip4.parse out = .ok (o', i) ∧ o'.hdr = o.hdr := by
+  rcases ip4_reparse cx o h hn hf region hr h16 with ⟨out, hw, hp⟩
+  exact ⟨out, _, _, hw, hp, rfl⟩
+
 end Tins.Wire.Ip
